@@ -380,7 +380,7 @@ impl<'a> StrictReader<'a> {
     }
 
     /// decode a stream body through its Filter chain with the reference decoders
-    fn decode_stream(&self, d: &[(Vec<u8>, RObj)], data: &[u8]) -> R<Vec<u8>> {
+    pub fn decode_stream(&self, d: &[(Vec<u8>, RObj)], data: &[u8]) -> R<Vec<u8>> {
         let filters: Vec<Vec<u8>> = match dget(d, b"Filter") {
             None => vec![],
             Some(RObj::Name(n)) => vec![n.clone()],
